@@ -256,6 +256,13 @@ class S:
                         x = ("lit", x[1] % int(x[2].c))
                 except (ValueError, TypeError):
                     pass
+            elif x[0] == "fv" and x[1] is not None and isinstance(x[2], S) and x[2].text() is not None:
+                sp = parse_spec(x[1])
+                try:
+                    if sp is not None and sp.type in ("s", ""):
+                        x = ("lit", format(x[2].text(), x[1]))          # a literal string in a field: f"{'*':<8s}" is '*       '
+                except (ValueError, TypeError):
+                    pass
             if x[0] == "lit":
                 if not x[1]:
                     continue
